@@ -140,8 +140,8 @@ def resolve_loops(ob, gb):
     for key, bound in ob.loops.items():
         fn, k = key.split("#")
         ls = byfn.get(fn, [])
-        # source order: by line; loops on the same line keep CBMC's order reversed (inner loops are numbered first)
-        ls = sorted(ls, key=lambda t: (t[0], -t[1]))
+        # source order: by line; loops on the same line (macro expansions) keep CBMC numbering order
+        ls = sorted(ls, key=lambda t: (t[0], t[1]))
         if int(k) < len(ls):
             res[ls[int(k)][2]] = bound
     return res
